@@ -44,7 +44,7 @@ def call_closure(c, path, clos_term, call_args, at, edge, site):
     if any(a[0] == "b" for a in args):
         return BOT
     r = eng.summary(path, args, caller=(c.path, c.args, site))
-    if c.final and c.is_live():
+    if c.final and c.is_live() and at is not None:
         eng.mark_live(path, args)
     return r
 
@@ -130,7 +130,7 @@ def call_model(c, t, at, edge):
         if any(x[0] == "b" for x in a):
             return BOT
         r = eng.summary(name, a, caller=(c.path, c.args, site))
-        if c.final and c.is_live():
+        if c.final and c.is_live() and at is not None:
             eng.mark_live(name, a)
         return r
     if f is not None and f["kind"] == "Closure":
@@ -145,7 +145,7 @@ def call_model(c, t, at, edge):
         if any(x[0] == "b" for x in a):
             return BOT
         r = eng.summary(name, a, caller=(c.path, c.args, site))
-        if c.final and c.is_live():
+        if c.final and c.is_live() and at is not None:
             eng.mark_live(name, a)
         return r
     # ---------------------------------------------------------------- closure invocation through Fn traits
@@ -243,7 +243,7 @@ def call_model(c, t, at, edge):
                 x = x[2][0]
                 while x[0] in ("ref", "deref"):
                     x = x[2] if x[0] == "ref" else x[1]
-            if all(n in ("map", "into_iter", "iter", "copied", "cloned", "enumerate", "rev") for n in names) and names:
+            if all(n in ("map", "into_iter", "iter", "copied", "cloned", "enumerate", "rev") for n in names):
                 b = c.av(x, at, edge)
                 b = deref_av(b)
                 ty = c.ft.tyof(t) or ""
@@ -497,7 +497,7 @@ def default_value(c, t, at, edge, site):
         if f["kind"] == "AssocFn" and path.endswith("::default") and ("<%s as " % ty) in path.replace(c.facts.crate + "::", "", 1).join(["", ""]) + "" or \
                 (f["kind"] == "AssocFn" and path.endswith("as std::default::Default>::default") and ty and ty.split("::")[-1] in path):
             r = c.eng.summary(path, (), caller=(c.path, c.args, site))
-            if c.final and c.is_live():
+            if c.final and c.is_live() and at is not None:
                 c.eng.mark_live(path, ())
             return r
     return top_of_type(ty, c.facts)
